@@ -202,34 +202,16 @@ pub fn run(tier: Tier, seed: u64) -> i32 {
         }
     }
     // far beyond the enumerated scope: 63, 64 and 70 X inputs in one row (2^64 and more executed rows):
-    // rows are produced lazily, the first 40 are compared
+    // rows are produced lazily, the first 40 are compared. Each case runs in a child process under a
+    // memory limit of 4 GB: an implementation that materialises the expansion must not take the
+    // machine (or this harness) down with it
     for nx in [63usize, 64, 70] {
-        let mut sigs: Vec<Sig> = (0..nx).map(|i| Sig::inp(&format!("I{i}"), 1, 0)).collect();
-        sigs.push(Sig::inp("CLK", 1, 0));
-        sigs.push(Sig::out("Q", 4));
-        let mut header: Vec<String> = (0..nx).map(|i| format!("I{i}")).collect();
-        header.push("CLK".into());
-        header.push("Q".into());
         for with_c in [false, true] {
-            let mut row: Vec<Entry> = (0..nx).map(|_| Entry::X).collect();
-            row.push(if with_c { Entry::C } else { l(1) });
-            row.push(l(5));
-            let prog = Program { header: header.clone(), body: vec![Stmt::Row(row)] };
-            let text = text(&prog);
-            let script = vec![Step::Ans(vec![("Q".into(), V::Num(5))])];
-            let r = ref_run_fuel(&prog, &sigs, &script, 100_000, 40);
-            let mut opts = RunOpts::new(40);
-            opts.repeat_last = true;
-            opts.budget = 10_000_000;
-            let obs = run_dynamic(&text, &sigs, true, &script, &opts);
             total.evals += 1;
             total.nontrivial += 1;
             total.witness("sixty_four_and_more_x_inputs");
-            let proj = Proj { input_values: true, expected: true, output: false, checked_kind: true, lines: false, vars: false, verdicts: false };
-            if let Some((k, m)) = run_mismatch(&r, &obs, proj, None) {
-                total.violation(&format!("large scale: {}", classify(&m)), (1 << 61) + nx as u64 * 2 + with_c as u64, format!("{nx} X inputs in one row{}: the first 40 executed rows\nfirst difference at {m} (item {k})", if with_c { " and a clock" } else { "" }), || {
-                    json!({"kind": "dynamic", "text": text, "signals": sigs_json(&sigs), "driver_overrides_write_input": true, "script": crate::driver::script_json(&script), "max_next": 40, "after_end": 0, "continue_after_error": false, "seed": 1, "repeat_last": true, "extra_known": [], "expected": ref_items_brief(&r).into_iter().take(4).collect::<Vec<_>>(), "observed": obs_items_brief(&obs).into_iter().take(k + 3).collect::<Vec<_>>(), "mismatch": m})
-                });
+            if let Some(m) = xcase_in_child(nx, with_c) {
+                total.violation(&format!("large scale: {}", m.split(':').next().unwrap_or("?")), (1 << 61) + nx as u64 * 2 + with_c as u64, format!("{nx} X inputs in one row{}: the first 40 executed rows\n{m}", if with_c { " and a clock" } else { "" }), || json!({"kind": "xcase", "nx": nx, "with_c": with_c, "expected": ["the first 40 executed rows as prescribed"], "observed": [m.clone()]}));
             }
         }
     }
@@ -487,4 +469,63 @@ pub fn run(tier: Tier, seed: u64) -> i32 {
         e1: false,
     };
     finish(meta, total, started)
+}
+
+
+fn xcase_program(nx: usize, with_c: bool) -> (Program, Vec<Sig>) {
+    let mut sigs: Vec<Sig> = (0..nx).map(|i| Sig::inp(&format!("I{i}"), 1, 0)).collect();
+    sigs.push(Sig::inp("CLK", 1, 0));
+    sigs.push(Sig::out("Q", 4));
+    let mut header: Vec<String> = (0..nx).map(|i| format!("I{i}")).collect();
+    header.push("CLK".into());
+    header.push("Q".into());
+    let mut row: Vec<Entry> = (0..nx).map(|_| Entry::X).collect();
+    row.push(if with_c { Entry::C } else { l(1) });
+    row.push(l(5));
+    (Program { header, body: vec![Stmt::Row(row)] }, sigs)
+}
+
+/// The body of the child process: 0 = as prescribed, 1 = mismatch (printed)
+pub fn xcase(nx: usize, with_c: bool) -> i32 {
+    let (prog, sigs) = xcase_program(nx, with_c);
+    let text = text(&prog);
+    let script = vec![Step::Ans(vec![("Q".into(), V::Num(5))])];
+    let r = ref_run_fuel(&prog, &sigs, &script, 100_000, 40);
+    let mut opts = RunOpts::new(40);
+    opts.repeat_last = true;
+    opts.budget = 10_000_000;
+    let obs = run_dynamic(&text, &sigs, true, &script, &opts);
+    let proj = Proj { input_values: true, expected: true, output: false, checked_kind: true, lines: false, vars: false, verdicts: false };
+    match run_mismatch(&r, &obs, proj, None) {
+        None => {
+            println!("XCASE OK");
+            0
+        }
+        Some((k, m)) => {
+            println!("XCASE MISMATCH {}: first difference at {m} (item {k})", classify(&m));
+            1
+        }
+    }
+}
+
+/// Run one case in a child process under `ulimit -v` (4 GB); None = as prescribed
+pub fn xcase_in_child(nx: usize, with_c: bool) -> Option<String> {
+    let exe = std::env::current_exe().ok()?;
+    let out = std::process::Command::new("sh")
+        .arg("-c")
+        .arg(format!("ulimit -v 4000000; exec '{}' xcase {nx} {}", exe.display(), with_c as u8))
+        .output()
+        .ok()?;
+    let stdout = String::from_utf8_lossy(&out.stdout);
+    if out.status.code() == Some(0) && stdout.contains("XCASE OK") {
+        return None;
+    }
+    if let Some(l) = stdout.lines().find(|l| l.starts_with("XCASE MISMATCH ")) {
+        return Some(l["XCASE MISMATCH ".len()..].to_string());
+    }
+    Some(format!("process ends abnormally: the child process running this one case under a 4 GB memory limit ended with {:?} ({})", out.status, String::from_utf8_lossy(&out.stderr).lines().last().unwrap_or("")))
+}
+
+pub fn replay_xcase(j: &serde_json::Value) -> Vec<String> {
+    vec![xcase_in_child(j["nx"].as_u64().unwrap_or(64) as usize, j["with_c"].as_bool().unwrap_or(false)).unwrap_or("as prescribed".into())]
 }
